@@ -10,6 +10,7 @@ broker state `b`, every connection id and every first packet.
 import Mqtt.Proofs.BrokerLife
 import Mqtt.Proofs.BrokerRefineCor
 import Mqtt.Proofs.BrokerRefineFail
+import Mqtt.Proofs.BrokerRefineCorX
 
 namespace Mqtt.Properties.C11
 open Mqtt.Iface.Broker Mqtt.Model.Broker Mqtt.Proofs.BrokerLife
@@ -318,5 +319,23 @@ theorem C11_unanswerable_refusal_spec (s : Mqtt.Spec.Broker.S) (c : Nat) (f : Fi
         | cons _ _ => rfl
       simp [Mqtt.Spec.Broker.takeOver, hne]
   rw [ht, hr]
+
+open Mqtt.Proofs.BrokerRefine (EvX okRunX runX specRunX okEv) in
+open Mqtt.Spec.Broker (Accepts) in
+/-- **C11_refines_reference after a history with failed handshakes** (Proofs/BrokerRefineFail.lean:
+`BrokerX_refines_spec`).  The same statement for a first packet that is not an acceptable CONNECT, after a
+history that may also contain first packets whose answer could not be written (`EvX.failFirst`). -/
+theorem C11_refines_reference_with_failed_handshakes (es : List EvX) (hok : okRunX {} es = true)
+    (c : Nat) (f : First) (a : Bool)
+    (he : okEv (runX {} es).1 (.first c f a) = true) (hacc : accepts f a = false) :
+    Accepts (Mqtt.Spec.Broker.step (specRunX {} es).1 (.first c f a)).2 (step (runX {} es).1 (.first c f a)).2 ∧
+    (step (runX {} es).1 (.first c f a)).1 = (runX {} es).1 ∧
+    (Mqtt.Spec.Broker.step (specRunX {} es).1 (.first c f a)).1 = (specRunX {} es).1 ∧
+    ∃ codes, (Mqtt.Spec.Broker.step (specRunX {} es).1 (.first c f a)).2 = [.refused c codes] ∧
+      codes = Mqtt.Proofs.BrokerRefine.reasons f a ∧
+      (((step (runX {} es).1 (.first c f a)).2 = [.closed c] ∧ none ∈ codes) ∨
+       ∃ k, k ≠ 0 ∧ some k ∈ codes ∧
+         (step (runX {} es).1 (.first c f a)).2 = [.send c (.connack false k), .closed c]) :=
+  Mqtt.Proofs.BrokerRefine.refusal_acceptedX es hok c f a he hacc
 
 end Mqtt.Properties.C11
